@@ -320,7 +320,13 @@ def check_dir_mtime(ctx):
     en = t.en
 
     def is_getmtime(x):
-        return x is not None and (prog.resolve(f.module, x) or '').endswith(
+        if x is None:
+            return False
+        try:
+            x = en.expand(x)         # a local alias of the function
+        except Exception:
+            pass
+        return (prog.resolve(f.module, x) or '').endswith(
             'os.path.getmtime')
 
     def is_cached(x):
@@ -332,9 +338,17 @@ def check_dir_mtime(ctx):
         e0 = e
         if depth <= 0:
             return {'?'}
-        if isinstance(e, ast.Name) and e.id.startswith('SYM_m'):
+        if isinstance(e, ast.Name) and (e.id.startswith('SYM_m') or any(
+                ev.kind == 'call' and method_call(ev.node) and U(
+                    method_call(ev.node)[0]) == e.id and method_call(
+                        ev.node)[1] in ('append', 'extend', 'insert')
+                for ev in p.events)):
             out = candidates(p, en.defs.get(e.id), depth - 1) if isinstance(
-                en.defs.get(e.id), ast.AST) else {'?'}
+                en.defs.get(e.id), ast.AST) else (
+                    candidates(p, p.env.get(e.id), depth - 1)
+                    if isinstance(getattr(p, 'env', {}).get(e.id), ast.AST)
+                    and not (isinstance(p.env.get(e.id), ast.Name)
+                             and p.env.get(e.id).id == e.id) else {'?'})
             for ev in p.events:
                 mc = method_call(ev.node) if ev.kind == 'call' else None
                 if mc and U(mc[0]) == e.id and ev.node.args:
@@ -498,6 +512,8 @@ def check_dir_mtime(ctx):
                 # the listing loop did not run: there are no entries
                 got = got | {'entries'}
             if got is not None:
+                import os as _os
+                if _os.environ.get('PVERIF_DBG'): print('DBG', sorted(got), U(en.expand(m))[:100], p.cond_text()[-200:])
                 cand = got if cand is None else (cand & got)
     ctx.count(len(t.paths))
     ok_self = cand is not None and 'self' in cand
